@@ -393,7 +393,12 @@ class SymExec:
         if isinstance(e, ast.Name):
             return env.get(e.id, Poly.atom(e.id))
         if isinstance(e, ast.Attribute):
-            return Poly.atom(_s(rec(e.value)) + "." + e.attr)
+            key = _s(rec(e.value)) + "." + e.attr
+            if key in env:          # an attribute stored earlier on this path / carried over the loop head
+                return env[key]
+            return Poly.atom(key)
+        if isinstance(e, ast.Subscript):
+            return Poly.atom("%s[%s]" % (_s(rec(e.value)), _s(rec(e.slice))))
         if isinstance(e, ast.Call):
             tl = call_tail(e)
             if self._is_clock(e, module):
@@ -457,25 +462,30 @@ class SymExec:
             return ("const", bool(v[1]))
         return ("truth", _s(v))
 
-    def paths(self, head, list_name, limit=20000):
+    def paths(self, head, list_name, limit=20000, head_env=None):
         """Every acyclic path entry -> (second arrival at `head` | normal exit).
-        Yields (pc, events, final_env, path_nodes)."""
+        Returns [(pc, events, final_env, path_nodes, end, tests)]; `tests` pairs each
+        fact of `pc` with the test node it came from.  `head_env`, when given,
+        overrides the environment on entering an iteration (the state the loop
+        head may see in *any* iteration); the environments of the first arrival
+        at the head are kept in self.pre_envs."""
         cfg = self.cfg
         out = []
-        stack = [(cfg.entry, {}, (), (), False, frozenset(), ())]
+        self.pre_envs = []
+        stack = [(cfg.entry, {}, (), (), False, frozenset(), (), ())]
         n_steps = 0
         while stack:
-            node, env, pc, events, seen, visited, trail = stack.pop()
+            node, env, pc, events, seen, visited, trail, tests = stack.pop()
             n_steps += 1
             if n_steps > 400000 or len(out) > limit:
                 raise AnalysisError("path explosion in %s" % self.fn.qual)
             if node.kind == "raise":
                 continue
             if node.kind == "exit":
-                out.append((pc, events, env, trail, "exit"))
+                out.append((pc, events, env, trail, "exit", tests))
                 continue
             if node is head and seen:
-                out.append((pc, events, env, trail, "next-lease"))
+                out.append((pc, events, env, trail, "next-lease", tests))
                 continue
             if node.id in visited:
                 raise AnalysisError("%s: a cycle that does not pass the lease loop head (L%d); the decision "
@@ -491,9 +501,10 @@ class SymExec:
                     pol = lab[0] == "T"
                     if f[0] == "const":
                         if f[1] == pol:
-                            stack.append((nx, env, pc, events, seen, visited, trail))
+                            stack.append((nx, env, pc, events, seen, visited, trail, tests))
                         continue
-                    stack.append((nx, env, pc + ((f if pol else _neg(f)),), events, seen, visited, trail))
+                    g = f if pol else _neg(f)
+                    stack.append((nx, env, pc + (g,), events, seen, visited, trail, tests + ((node, g),)))
                 continue
             if node.kind == "iter":
                 for (nx, lab) in succ:
@@ -502,9 +513,14 @@ class SymExec:
                         for t in own_nodes(node.ast.target):
                             if isinstance(t, ast.Name):
                                 e2[t.id] = Poly.atom(t.id)
-                        stack.append((nx, e2, pc, events, True if node is head else seen, visited, trail))
+                        if node is head:
+                            if not seen:
+                                self.pre_envs.append(env)
+                            if head_env:
+                                e2.update(head_env)
+                        stack.append((nx, e2, pc, events, True if node is head else seen, visited, trail, tests))
                     elif node is not head:
-                        stack.append((nx, env, pc, events, seen, visited, trail))
+                        stack.append((nx, env, pc, events, seen, visited, trail, tests))
                 continue
             e2 = env
             ev2 = events
@@ -517,6 +533,8 @@ class SymExec:
                             if t.id == list_name:
                                 ev2 = ev2 + (("bind", node, None),)
                             e2[t.id] = self.ev(a.value, env)
+                        elif isinstance(t, ast.Attribute):
+                            e2[_s(self.ev(t.value, env)) + "." + t.attr] = self.ev(a.value, env)
                         elif isinstance(t, (ast.Tuple, ast.List)):
                             vals = a.value.elts if isinstance(a.value, (ast.Tuple, ast.List)) and \
                                 len(a.value.elts) == len(t.elts) else None
@@ -532,6 +550,10 @@ class SymExec:
                     e2[a.target.id] = self.ev(be, env)
                     if a.target.id == list_name:
                         ev2 = ev2 + (("bind", node, None),)
+                elif isinstance(a, ast.AugAssign) and isinstance(a.target, ast.Attribute):
+                    e2 = dict(env)
+                    be = ast.BinOp(left=a.target, op=a.op, right=a.value)
+                    e2[_s(self.ev(a.target.value, env)) + "." + a.target.attr] = self.ev(be, env)
                 elif isinstance(a, ast.Expr) and isinstance(a.value, ast.Call):
                     c = a.value
                     if isinstance(c.func, ast.Attribute) and attr_path(c.func.value) == list_name:
@@ -540,7 +562,7 @@ class SymExec:
                         else:
                             ev2 = ev2 + (("mutate", node, None),)
             for (nx, lab) in succ:
-                stack.append((nx, e2, pc, ev2, seen, visited, trail))
+                stack.append((nx, e2, pc, ev2, seen, visited, trail, tests))
         self.steps = n_steps
         return out
 
@@ -622,6 +644,155 @@ def _get_config_key(e):
             and isinstance(e.args[1], ast.Constant) and isinstance(e.args[0], ast.Constant):
         return "%s.%s" % (e.args[0].value, e.args[1].value)
     return None
+
+
+CARRIED = "@carried"
+
+
+def _is_carried(v):
+    return isinstance(v, Poly) and any(CARRIED in str(a) for a in v.atoms())
+
+
+def _carried_names(text):
+    return sorted(set(re.findall(r"([A-Za-z_][\w.]*)" + re.escape(CARRIED), text)))
+
+
+def _loop_head_state(sx, fn, head, list_name):
+    """The environment an iteration of the loop at `head` may start from, as a
+    constant-propagation fixpoint at the loop head: everything the loop body
+    writes (locals, attributes of self, containers it stores into or calls for
+    effect) is an opaque carried value, unless its value before the loop is a
+    constant that every path through the body re-establishes.
+    Returns (head_env, paths enumerated under it)."""
+    first = sx.paths(head, list_name)
+    sx.total_steps = sx.steps
+    pre = list(sx.pre_envs)
+    if not pre:
+        raise AnchorVanished("%s: the lease loop is not reachable" % fn.qual)
+    me = fn.params[0] if fn.params else None
+    target = {t.id for t in own_nodes(head.ast.target) if isinstance(t, ast.Name)}
+    written = set()
+    for p in first:
+        trail = p[3]
+        for n in trail[trail.index(head) + 1:] if head in trail else ():
+            for st in node_stores(n):
+                st = st[:-2] if st.endswith("[]") else st
+                root = st.split(".")[0]
+                if "." in st and root == me:
+                    written.add(st)          # self.x: tracked as an attribute
+                else:
+                    written.add(root)        # a local, or an object / container held in a local
+            if n.kind == "stmt" and isinstance(n.ast, ast.Expr) and isinstance(n.ast.value, ast.Call) \
+                    and isinstance(n.ast.value.func, ast.Attribute) and isinstance(n.ast.value.func.value, ast.Name) \
+                    and n.ast.value.func.value.id != me:
+                written.add(n.ast.value.func.value.id)    # called for effect: may keep state
+    written -= target
+    written.discard(me)
+
+    def const(v):
+        return (isinstance(v, tuple) and v[0] == "c") or (isinstance(v, Poly) and v.const_value() is not None)
+    cand = {}
+    for w in written:
+        vals = [e.get(w) for e in pre]
+        if vals[0] is not None and const(vals[0]) and all(v == vals[0] for v in vals[1:]):
+            cand[w] = vals[0]
+    for _round in range(len(cand) + 2):
+        head_env = {w: cand[w] if w in cand else Poly.atom(w + CARRIED) for w in written}
+        paths = sx.paths(head, list_name, head_env=head_env)
+        sx.total_steps += sx.steps
+        broken = {w for w in cand for p in paths if p[4] == "next-lease" and not p[2].get(w) == cand[w]}
+        if not broken:
+            return head_env, [p for p in paths if p[4] == "next-lease"]
+        for w in broken:
+            del cand[w]
+    raise AnalysisError("%s: loop-head state did not stabilise" % fn.qual)
+
+
+def _decision_table(ps, paths, head, L, lease, want, report, select=None, list_events=True, all_cases=False):
+    """Judge every enumerated path through one iteration of the lease loop
+    against the documented table.  report(case, node, msg, trail, tests);
+    returns the set of (case, outcome) seen.  `select(pc, events)` restricts the
+    paths that may be reported (all paths still count as cases when all_cases)."""
+    cases = set()
+    for (pc, events, env, trail, _end, tests) in paths:
+        quiet = select is not None and not select(pc, events)
+        if quiet and not all_cases:
+            continue
+        rep = (lambda *a: None) if quiet else report
+        appended = [e for e in events if e[0] == "append"]
+        other = [e for e in events if e[0] != "append" and e[1].id in {n.id for n in trail[trail.index(head):]}]
+        if list_events:
+            for e in other:
+                rep("list", e[1], "the list of leases to cancel (%s) is re-bound or mutated inside the lease loop: %s" % (
+                    L, src(ps, e[1].ast)), trail, tests)
+        for e in appended:
+            if _s(e[2]) != lease:
+                rep("list", e[1], "%s.append(%s): queued for cancellation is not the lease that was examined (%s)" % (
+                    L, src(ps, e[1].ast.value.args[0]), lease), trail, tests)
+        cancel = bool(appended)
+        facts = set(pc)
+        modes = {"age", "cutoff-date"}
+        consulted = False
+        for f in facts:
+            if f[0] in ("==", "!=") and "self.mode" in f[1:]:
+                c = [x for x in f[1:] if x != "self.mode"][0]
+                consulted = True
+                if f[0] == "==":
+                    modes &= {c.strip("'\"")}
+                else:
+                    modes.discard(c.strip("'\""))
+        type_in = [f for f in facts if f[0] == "in" and f[1].endswith(".sharetype") and f[2] == "self.sharetypes_to_expire"]
+        type_out = [f for f in facts if f[0] == "not in" and f[1].endswith(".sharetype") and f[2] == "self.sharetypes_to_expire"]
+        anchor = appended[0][1] if appended else head
+        if len(modes) != 1 or not consulted:
+            if cancel:
+                rep("mode", anchor, "a lease is queued for cancellation on a path that does not establish "
+                       "self.mode (facts: %s)" % "; ".join(sorted(_fact_str(f) for f in facts)), trail, tests)
+            elif not type_out:
+                rep("mode", anchor, "a lease is kept on a path that neither establishes self.mode nor excludes "
+                       "its share type", trail, tests)
+            continue
+        mode = next(iter(modes))
+        if mode == "age":
+            has = ("is not", "None", "self.override_lease_duration") in facts
+            hasnt = ("is", "None", "self.override_lease_duration") in facts
+            if has and not hasnt:
+                case = "age-override"
+            elif hasnt and not has:
+                case = "age-own-duration"
+            else:
+                case = None
+        else:
+            case = "cutoff-date"
+        if case is None:
+            if cancel or not type_out:
+                rep("age-override", anchor, "age mode: a lease is %s on a path that does not test "
+                       "self.override_lease_duration against None" % ("queued for cancellation" if cancel else "kept"),
+                trail, tests)
+            continue
+        P, text = want[case]
+        pos = ("<", P) in facts or ("<=", P) in facts
+        negd = ("<", -P) in facts or ("<=", -P) in facts
+        if cancel:
+            cases.add((case, "cancel"))
+            if not type_in:
+                rep("sharetype", anchor, "a lease is queued for cancellation on a path that never established "
+                       "sharetype in self.sharetypes_to_expire", trail, tests)
+            if not pos:
+                cmpf = sorted(_fact_str(f) for f in facts if f[0] in ("<", "<="))
+                rep(case, anchor, "mode %s: a lease is queued for cancellation without the documented predicate "
+                       "'%s' (0 < %s); the path only establishes: %s" % (case, text, P, "; ".join(cmpf) or "nothing"), trail, tests)
+        else:
+            if type_out:
+                cases.add(("sharetype", "keep"))
+                continue
+            cases.add((case, "keep"))
+            if not negd:
+                cmpf = sorted(_fact_str(f) for f in facts if f[0] in ("<", "<="))
+                rep(case, anchor, "mode %s: a lease of an enabled share type is kept although nothing on the path "
+                       "contradicts '%s' (0 < %s); the path only establishes: %s" % (
+                           case, text, P, "; ".join(cmpf) or "nothing"), trail, tests)
+    return cases
 
 
 # =====================================================================
@@ -734,91 +905,53 @@ def run(ctx: Context):
             "cutoff-date": (CUT - REN, "renewal time < cutoff_date"),
         }
         r.sample({"age": str(AGE), "expiration": str(EXP), "renewal": str(REN)})
-        cases = set()
         reported = set()
 
-        def report(case, node, msg, trail):
+        def report(case, node, msg, trail, tests):
             if (case, msg) in reported:
                 return
             reported.add((case, msg))
             w = ["L%d %r" % (x.lineno, x) for x in trail if x.kind in ("test",)]
             r.violation("%s[%s]" % (ps.qual, case), ps.loc(node.ast if node is not None else None), msg, w)
 
-        for (pc, events, env, trail, _end) in paths:
-            appended = [e for e in events if e[0] == "append"]
-            other = [e for e in events if e[0] != "append" and e[1].id in {n.id for n in trail[trail.index(head):]}]
-            for e in other:
-                report("list", e[1], "the list of leases to cancel (%s) is re-bound or mutated inside the lease loop: %s" % (
-                    L, src(ps, e[1].ast)), trail)
-            for e in appended:
-                if _s(e[2]) != lease:
-                    report("list", e[1], "%s.append(%s): queued for cancellation is not the lease that was examined (%s)" % (
-                        L, src(ps, e[1].ast.value.args[0]), lease), trail)
-            cancel = bool(appended)
-            facts = set(pc)
-            modes = {"age", "cutoff-date"}
-            consulted = False
-            for f in facts:
-                if f[0] in ("==", "!=") and "self.mode" in f[1:]:
-                    c = [x for x in f[1:] if x != "self.mode"][0]
-                    consulted = True
-                    if f[0] == "==":
-                        modes &= {c.strip("'\"")}
-                    else:
-                        modes.discard(c.strip("'\""))
-            type_in = [f for f in facts if f[0] == "in" and f[1].endswith(".sharetype") and f[2] == "self.sharetypes_to_expire"]
-            type_out = [f for f in facts if f[0] == "not in" and f[1].endswith(".sharetype") and f[2] == "self.sharetypes_to_expire"]
-            anchor = appended[0][1] if appended else head
-            if len(modes) != 1 or not consulted:
-                if cancel:
-                    report("mode", anchor, "a lease is queued for cancellation on a path that does not establish "
-                           "self.mode (facts: %s)" % "; ".join(sorted(_fact_str(f) for f in facts)), trail)
-                elif not type_out:
-                    report("mode", anchor, "a lease is kept on a path that neither establishes self.mode nor excludes "
-                           "its share type", trail)
-                continue
-            mode = next(iter(modes))
-            if mode == "age":
-                has = ("is not", "None", "self.override_lease_duration") in facts
-                hasnt = ("is", "None", "self.override_lease_duration") in facts
-                if has and not hasnt:
-                    case = "age-override"
-                elif hasnt and not has:
-                    case = "age-own-duration"
-                else:
-                    case = None
-            else:
-                case = "cutoff-date"
-            if case is None:
-                if cancel or not type_out:
-                    report("age-override", anchor, "age mode: a lease is %s on a path that does not test "
-                           "self.override_lease_duration against None" % ("queued for cancellation" if cancel else "kept"),
-                           trail)
-                continue
-            P, text = want[case]
-            pos = ("<", P) in facts or ("<=", P) in facts
-            negd = ("<", -P) in facts or ("<=", -P) in facts
-            if cancel:
-                cases.add((case, "cancel"))
-                if not type_in:
-                    report("sharetype", anchor, "a lease is queued for cancellation on a path that never established "
-                           "sharetype in self.sharetypes_to_expire", trail)
-                if not pos:
-                    cmpf = sorted(_fact_str(f) for f in facts if f[0] in ("<", "<="))
-                    report(case, anchor, "mode %s: a lease is queued for cancellation without the documented predicate "
-                           "'%s' (0 < %s); the path only establishes: %s" % (case, text, P, "; ".join(cmpf) or "nothing"), trail)
-            else:
-                if type_out:
-                    cases.add(("sharetype", "keep"))
-                    continue
-                cases.add((case, "keep"))
-                if not negd:
-                    cmpf = sorted(_fact_str(f) for f in facts if f[0] in ("<", "<="))
-                    report(case, anchor, "mode %s: a lease of an enabled share type is kept although nothing on the path "
-                           "contradicts '%s' (0 < %s); the path only establishes: %s" % (
-                               case, text, P, "; ".join(cmpf) or "nothing"), trail)
+        cases = _decision_table(ps, paths, head, L, lease, want, report)
         for c in sorted(cases):
             r.site(ps, head.ast, "case %s/%s" % c)
+
+    # -- 6. the same table in every iteration (nothing carried over from the previous lease) ----
+    with ctx.rule("C26.6", "R3/E2", "the per-lease decision table holds in every iteration of the lease loop, not "
+                  "only the first: with every local / attribute / container the loop body writes taken at the loop "
+                  "head as whatever an earlier lease may have left there (unless inductively constant), a lease is "
+                  "still queued iff its own predicate holds", expected=7) as r:
+        sx6 = SymExec(idx, ps)
+        head_env, carried_paths = _loop_head_state(sx6, ps, head, L)
+        r.count(sx6.total_steps)
+        r.sample({"carried": sorted(k for k, v in head_env.items() if _is_carried(v)),
+                  "inductively constant": sorted("%s=%s" % (k, _s(v)) for k, v in head_env.items() if not _is_carried(v))})
+        reported6 = set()
+
+        def report6(case, node, msg, trail, tests):
+            inv = [(n, _carried_names(_fact_str(f))) for (n, f) in tests if _carried_names(_fact_str(f))]
+            names = sorted({x for (_n, ns) in inv for x in ns}) or ["?"]
+            if (names[0], case) in reported6:
+                return
+            reported6.add((names[0], case))
+            at = inv[0][0] if inv else node
+            w = ["L%d %r" % (x.lineno, x) for x in trail if x.kind in ("test",)]
+            r.violation("%s.%s" % (ps.qual, names[0]), ps.loc(at.ast if at is not None else None),
+                        "from the second lease of a share on, %s still holds what the previous lease left there (it is "
+                        "not re-established for each lease before L%d reads it), so the verdict on one lease leaks "
+                        "into the next: %s" % (" and ".join(names), at.lineno if at is not None else 0,
+                                               msg.replace(CARRIED, "<from previous lease>")), w)
+
+        def involves_carried(pc, events):
+            return any(_carried_names(_fact_str(f)) for f in pc) or any(
+                e[0] == "append" and _carried_names(_s(e[2])) for e in events)
+
+        cases6 = _decision_table(ps, carried_paths, head, L, lease, want, report6, select=involves_carried,
+                                 list_events=False, all_cases=True)
+        for c in sorted(cases6):
+            r.site(ps, head.ast, "case %s/%s (any iteration)" % c)
 
     # -- 3. cancel_lease is a guarded effect ---------------------------------
     with ctx.rule("C26.3", "R3/R4", "cancel_lease is called only by process_share, only under "
